@@ -230,12 +230,12 @@ func (e *Engine) typedAxiom(h Term, key string) (Term, bool) {
 func (e *Engine) closednessAxiom(h Term, key string, bound Term) (Term, bool) {
 	kind := e.heapValKind[key]
 	if kind == "" {
-		// opt-in per root (contract line "nested_closedness"): on large third-party structs (kmsg requests) the
-		// quantified conjunction slows quantifier-heavy proofs down to time-outs (seen: C19), and only C39 needs it
-		if e.rootContract == nil || e.rootContract.Flags["nested_closedness"] == "" {
-			return Term{}, false
+		// opt-in per root: "nested_closedness" (ops) or "deep_closedness" (proxy): on large third-party structs (kmsg
+		// requests) the quantified conjunction slows quantifier-heavy proofs down to time-outs (seen: C19)
+		if e.rootContract != nil && e.rootContract.Flags["nested_closedness"] != "" {
+			return e.closednessNested(h, key, bound)
 		}
-		return e.closednessNested(h, key, bound)
+		return e.deepClosednessAxiom(h, key, bound)
 	}
 	isMem := strings.HasPrefix(key, "Mem|")
 	var val Term
